@@ -101,8 +101,9 @@ def main(tier):
         key = json.dumps([deps, rounds])
         if key in seen: continue
         seen.add(key)
-        src = modgen.gen_sources(deps, rnd, plain=(len(jobs) % 3 == 0))
-        jobs.append({"t": len(jobs) + 1, "deps": pad(deps), "sources": {str(k): v for k, v in src.items()}, "rounds": rounds, "finish": len(jobs) % 2 == 0})
+        base = ["/p/", "/", "/a/b/"][len(jobs) % 3]
+        src = modgen.gen_sources(deps, rnd, plain=(len(jobs) % 4 == 0), base=base)
+        jobs.append({"t": len(jobs) + 1, "deps": pad(deps), "sources": {str(k): v for k, v in src.items()}, "rounds": rounds, "finish": len(jobs) % 2 == 0, "base": base})
     if quick and len(jobs) > 9000:
         jobs = rnd.sample(jobs, 9000)
         for i, j in enumerate(jobs): j["t"] = i + 1
@@ -117,9 +118,11 @@ def main(tier):
         n = rnd.randint(2, NMAX)
         p = rnd.choice([0.3, 0.5, 0.8])
         deps = [[x for x in range(m + 1, n + 1) if rnd.random() < p] for m in range(0, n + 1)]
-        src = modgen.gen_sources(deps, rnd)
+        base = rnd.choice(["/p/", "/", "/a/b/"])
+        if t % 7 == 0: deps = [[m + 1] if m < n else [] for m in range(0, n + 1)]      # a plain chain: long re-export chains
+        src = modgen.gen_sources(deps, rnd, base=base)
         rounds = [[rnd.randint(1, n) for _ in range(rnd.randint(0, 4))] for _ in range(rnd.randint(0, 5))]
-        j = {"t": t, "deps": pad(deps), "sources": {str(k): v for k, v in src.items()}, "rounds": rounds, "finish": rnd.random() < 0.8}
+        j = {"t": t, "deps": pad(deps), "sources": {str(k): v for k, v in src.items()}, "rounds": rounds, "finish": rnd.random() < 0.8, "base": base}
         if t % 5 == 0: j["gc"] = 1
         jobs2.append(j)
     tp2 = drive(exe, jobs2, "rand")
